@@ -3,6 +3,11 @@
 import json, subprocess
 
 BUILT = {
+ "C13": dict(level="exploration",
+   technique="grammar-based generation of macro templates, arguments and call sites with an independent tree substitution as reference model; oracle = expanded tree, its printed form and its evaluation equal those of the hand-substituted program, call sites independent",
+   text="Templates with unquote holes (each parameter used 0..3 times, 0..4 parameters) are generated from an expression/statement grammar, and used 1..6 times per session at top level, in function bodies, counted loops, conditions and call arguments with arguments that have their own (looser-binding) operators, side effects through a printing function, conditionals and nested macro calls; definitions and uses are spread over several REPL inputs. The harness substitutes on its own tree and prints the macro-free program H. The tree returned by State.ExpandMacros must equal parse(H) on the canonical dump, print identically, evaluate to the same output / echo / errors as H on a twin session (which also shows arguments are evaluated exactly as often and where the template mentions them), and re-expanding any earlier input after later uses must give the same tree (no shared mutable nodes).",
+   note="Trusted: the harness's substitution (30 lines) and printer. Only quote-bodied macros with bare-parameter unquotes, as the property states.",
+   ref="DESIGN.md section 3, C13"),
  "C15": dict(level="exploration",
    technique="grammar-based generation with token/bracket bookkeeping: mode differential on complete programs, continuation oracle on generated cut points, and chunked-vs-batch evaluation of typed scripts",
    text="Programs are printed from harness-owned trees with random layout; the printer records for every token which constructs are open after it. (1) Complete programs must parse to the intended tree in line mode and in file mode. (2) Up to 25 cuts per program at token boundaries inside an open parenthesis, bracket, block or map, right after a binary operator, and inside string literals and block comments: line mode must ask for a continuation without error, and prefix + newline + rest must parse to the tree of the whole program (not compared where a call/index bracket must follow without whitespace). (3) Typed-grammar scripts with functions, closures, loops and macros defined before use are evaluated at once and in consecutive chunks at generated statement boundaries on one session: concatenated output and final globals must agree.",
